@@ -6,7 +6,7 @@
 From Coq Require Import List Arith NArith Bool.
 From Eino Require Import Base.Util Base.GoSlice Model.Callbacks Model.CallbacksStream Model.CallbacksSched.
 From Eino Require Import Proofs.CallbacksSlice Proofs.Callbacks Proofs.CallbacksEngine Proofs.CallbacksStream
-  Proofs.CallbacksSched.
+  Proofs.CallbacksSched Proofs.CallbacksWitness.
 Import ListNotations.
 Local Open Scope N_scope.
 
@@ -65,12 +65,9 @@ Theorem handler_lists_immutable :
 Proof. exact handler_lists_immutable_proof. Qed.
 Print Assumptions handler_lists_immutable.
 
-Definition w_plain (globals : list handler) : world :=
-  {| w_pol := pol_double; w_globals := globals; w_needs := fun _ _ => true |}.
-
-(* the scenario of F-C10: parent list [1;2;3] with one spare slot, two siblings *)
-Definition fc10_pre : list op := [ORaw 0 100 0%nat [1; 2; 3] 1%nat; OAppend (Some 0) 1 101 [[4]]].
-Definition fc10_post : list op := [OAppend (Some 0) 2 102 [[5]]; OOn 0 TEnd; OOn 2 TStart; OOn 1 TEnd].
+(* [w_plain globals]: doubling growth policy, the given global handlers, no TimingChecker;
+   [fc10_pre], [fc10_post]: the scenario of F-C10 (parent list [1;2;3] with one spare slot, two
+   siblings) — Proofs/CallbacksWitness.v *)
 
 Example handler_lists_immutable_nonvacuous :
   inherited_list (run_script true (w_plain [9]) [ORaw 0 100 0%nat [1; 2; 3] 1%nat]) (Some 0) = Some [1; 2; 3] /\
@@ -83,6 +80,18 @@ Proof.
   - split; vm_compute; reflexivity.
 Qed.
 
+(* the caller passes hs[0:3] of the slice it passed for unit 0 again (unit 5): the two managers
+   share one array and the new one's spare slot is unit 0's fourth handler; nothing is written *)
+Example handler_lists_immutable_nonvacuous_alias :
+  let pre := [ORaw 0 100 1%nat [1; 2; 3; 4] 0%nat] in
+  let post := [OAlias 0 5 105 0%nat 3%nat; OOn 5 TStart; OOn 5 TEnd; OOn 1 TEnd] in
+  observed_list (run_script true (w_plain [9]) (pre ++ OAppend (Some 0) 1 101 [[7]] :: post)) 1 = Some [1; 2; 3; 4; 7] /\
+  observed_list (run_script true (w_plain [9]) (pre ++ OAppend (Some 0) 1 101 [[7]] :: post)) 0 = Some [1; 2; 3; 4] /\
+  observed_list (run_script true (w_plain [9]) (pre ++ OAppend (Some 0) 1 101 [[7]] :: post)) 5 = Some [1; 2; 3] /\
+  (* On as it was writes the global handler 9 over unit 0's handler 4 *)
+  observed_list (run_script false (w_plain [9]) (pre ++ OAppend (Some 0) 1 101 [[7]] :: post)) 0 = Some [1; 2; 3; 9].
+Proof. vm_compute. repeat split; reflexivity. Qed.
+
 (* The code as it was (AppendHandlers = append(cbm.handlers, hs...)): the sibling's append
    lands in the shared spare slot and unit 1 afterwards observes the handler designated to
    unit 2. *)
@@ -94,13 +103,7 @@ Theorem handler_lists_immutable_v0_refuted :
     observed_list (run_script false w (pre ++ OAppend parent u inf opts :: post)) u
     = Some [1; 2; 3; 5] /\
     inh ++ List.concat opts = [1; 2; 3; 4].
-Proof.
-  exists (w_plain []), [ORaw 0 100 0%nat [1; 2; 3] 1%nat], (Some 0), 1, 101, [[4]],
-         [OAppend (Some 0) 2 102 [[5]]], [1; 2; 3].
-  split; [vm_compute; reflexivity|]. split.
-  - intros o [<-|[]]; discriminate.
-  - split; vm_compute; reflexivity.
-Qed.
+Proof. exact handler_lists_immutable_v0_refuted_witness. Qed.
 Print Assumptions handler_lists_immutable_v0_refuted.
 
 (* The same for On as it was (append(mgr.handlers, mgr.globalHandlers...) for the iteration):
@@ -114,13 +117,7 @@ Theorem handler_lists_immutable_on_v0_refuted :
     observed_list (run_script false w (pre ++ OAppend parent u inf opts :: post)) u
     = Some [1; 2; 3; 9] /\
     inh ++ List.concat opts = [1; 2; 3; 4].
-Proof.
-  exists (w_plain [9]), [ORaw 0 100 0%nat [1; 2; 3] 1%nat], (Some 0), 1, 101, [[4]],
-         [OOn 0 TEnd], [1; 2; 3].
-  split; [vm_compute; reflexivity|]. split.
-  - intros o [<-|[]]; discriminate.
-  - split; [intros o [<-|[]]; eauto|]. split; vm_compute; reflexivity.
-Qed.
+Proof. exact handler_lists_immutable_on_v0_refuted_witness. Qed.
 Print Assumptions handler_lists_immutable_on_v0_refuted.
 
 (* ------------------------------------------------------------------ designated_only_there *)
@@ -157,17 +154,7 @@ Theorem designated_only_there_v0_refuted :
     ~ In x inh /\ ~ In x (List.concat opts) /\ ~ In x (w_globals w) /\
     exists e, In e (st_log (run_script false w (pre ++ OAppend parent u inf opts :: post))) /\
               ev_unit e = u /\ ev_handler e = x.
-Proof.
-  exists (w_plain []), [ORaw 0 100 0%nat [1; 2; 3] 1%nat], (Some 0), 1, 101, [[4]],
-         [OAppend (Some 0) 2 102 [[5]]; OOn 1 TEnd], [1; 2; 3], 5.
-  split; [vm_compute; reflexivity|].
-  split; [intros o [<-|[]]; discriminate|].
-  split; [intros o [<-|[<-|[]]]; discriminate|].
-  split; [simpl; intros [H|[H|[H|[]]]]; discriminate|].
-  split; [simpl; intros [H|[]]; discriminate|].
-  split; [simpl; tauto|].
-  exists (Ev 1 5 TEnd 101). split; [vm_compute; tauto|]. split; reflexivity.
-Qed.
+Proof. exact designated_only_there_v0_refuted_witness. Qed.
 Print Assumptions designated_only_there_v0_refuted.
 
 (* ------------------------------------------------------------------ exactly_once_paired: one graph *)
@@ -197,14 +184,16 @@ Print Assumptions exactly_once_paired_flat.
 (* The run of a compiled (nested, layered) graph as a program tree: the graph's callbacks
    context, On start, then stage after stage all nodes of the stage IN PARALLEL (each node:
    initNodeCallbacks, then On start / On end-or-error around the body, or recursively the run
-   of a sub graph), a failing node or a rejected designation ending the run with On error.
+   of a sub graph, or a ToolsNode: On start, all tool calls of the message IN PARALLEL — each
+   ReuseHandlers with the tool's run info, On start / On end-or-error — then On end-or-error),
+   a failing node or a rejected designation ending the run with On error.
    [traces p t]: t is a schedule of p (any interleaving of parallel branches, at every
    nesting level).  The canonical operation list that Corr/C10.v evaluates is one of them: *)
 Theorem canonical_order_is_a_schedule :
   forall is_stream g ginf opts stages,
     flatten (graph_prog is_stream g ginf opts stages) = graph_ops is_stream g ginf opts stages /\
     traces (graph_prog is_stream g ginf opts stages) (graph_ops is_stream g ginf opts stages).
-Proof. intros. split; [apply flatten_graph_prog | apply graph_ops_is_a_schedule]. Qed.
+Proof. exact canonical_order_is_a_schedule_witness. Qed.
 Print Assumptions canonical_order_is_a_schedule.
 
 (* For every world (growth policy, global handlers, timing table), paradigm, graph (any
@@ -286,17 +275,69 @@ Theorem schedule_independent :
 Proof. exact engine_schedule_independent. Qed.
 Print Assumptions schedule_independent.
 
+(* In every schedule every operation of the run finds the context it needs (AppendHandlers /
+   ReuseHandlers on an existing parent context, On on an existing context): the model's flag
+   [st_bad] — which Corr/C10.v requires to be false on the canonical order — is false on every
+   schedule, so no expected event is lost to a missing context. *)
+Theorem model_never_flags :
+  forall w is_stream g ginf opts stages t,
+    NoDup (g :: stages_uids stages) ->
+    traces (graph_prog is_stream g ginf opts stages) t ->
+    st_bad (run_script true w t) = false.
+Proof. exact engine_never_flagged. Qed.
+Print Assumptions model_never_flags.
+
+(* ------------------------------------------------------------------ designated_only_there: node paths *)
+
+(* [graph_table_p]: the table with every unit's node path from the top graph (what
+   compose.NewNodePath addresses); forgetting the paths gives back the table. *)
+Theorem table_with_paths :
+  forall is_stream g ginf opts stages,
+    map fst (graph_table_p is_stream g ginf opts stages) = graph_table is_stream g ginf opts stages.
+Proof. exact graph_table_p_fst. Qed.
+Print Assumptions table_with_paths.
+
+(* The handler list of a unit consists exactly of the handlers of the call options that
+   attach to the unit's node path: options without designation (whole graph and everything
+   nested in it) and options designated to the unit itself or to a sub graph node enclosing
+   it ([attaches o q]: snd o = [] or some non-empty path of o is a prefix of q). *)
+Theorem handler_list_by_node_path :
+  forall is_stream g ginf opts stages e pe,
+    In (e, pe) (graph_table_p is_stream g ginf opts stages) ->
+    forall x, In x (ue_list e) <-> exists o, In o opts /\ In x (fst o) /\ attaches o pe.
+Proof. exact engine_lists_by_path. Qed.
+Print Assumptions handler_list_by_node_path.
+
+(* DESIGNATED ONLY THERE at the level of the public API: in every schedule of every run, a
+   handler is invoked for a unit only if it is a global handler or some call option attaches
+   it to that unit's node path.  A handler designated to one node is never invoked for
+   another node, however many nodes run in parallel and however the handlers were passed. *)
+Theorem invoked_only_where_attached :
+  forall w is_stream g ginf opts stages t,
+    NoDup (g :: stages_uids stages) ->
+    traces (graph_prog is_stream g ginf opts stages) t ->
+    forall ev, In ev (st_log (run_script true w t)) ->
+      exists e pe, In (e, pe) (graph_table_p is_stream g ginf opts stages) /\
+        ev_unit ev = ue_unit e /\
+        (In (ev_handler ev) (w_globals w) \/
+         exists o, In o opts /\ In (ev_handler ev) (fst o) /\ attaches o pe).
+Proof. exact engine_invoked_only_where_attached. Qed.
+Print Assumptions invoked_only_where_attached.
+
 (* Non-vacuity: a nested graph in transform mode — a Stream-only lambda (unit 1), a sub graph
    (unit 2) holding a Transform lambda (3) and a failing Invoke lambda (4) in parallel and a
-   second stage (5) that never runs, a passthrough (6), a second outer stage (7) that never
-   runs; handlers for the whole graph, designated to nodes, to the sub graph and to node
-   paths inside it; one global handler; under the round-robin schedule. *)
+   second stage (5) that never runs, a passthrough (6), a ToolsNode (8) with an invoke-only
+   tool call (9) and a failing stream-only tool call (10) in parallel, a second outer stage (7)
+   that never runs; handlers for the whole graph, designated to nodes, to the sub graph, to
+   node paths inside it and to the ToolsNode; one global handler; under the round-robin
+   schedule. *)
 Definition ex_opts : list copt :=
-  [([1], []); ([2], [[1]]); ([3], [[2]]); ([4], [[2; 1]]); ([5], [[2; 2]]); ([6], [[3]])].
+  [([1], []); ([2], [[1]]); ([3], [[2]]); ([4], [[2; 1]]); ([5], [[2; 2]]); ([6], [[3]]); ([7], [[5]])].
 Definition ex_stages : list (list gnode) :=
   [[GLambda 1 1 1 2 false;
     GSub 2 2 2 [[GLambda 3 1 3 8 false; GLambda 4 2 4 1 true]; [GLambda 5 3 5 1 false]];
-    GPass 6 3];
+    GPass 6 3;
+    GTools 8 5 8 [(9, 9, 1, false); (10, 10, 2, true)]];
    [GLambda 7 4 7 1 false]].
 Definition ex_sched : list op := flatten_alt (graph_prog true 0 0 ex_opts ex_stages).
 
@@ -307,16 +348,23 @@ Example exactly_once_paired_nonvacuous :
   map (fun e => (ue_unit e, ue_list e, ue_timings e)) (graph_table true 0 0 ex_opts ex_stages) =
     [(0, [1], [TStartStream; TError]); (1, [1; 2], [TStart; TEndStream]);
      (2, [1; 3], [TStartStream; TError]); (3, [1; 3; 4], [TStartStream; TEndStream]);
-     (4, [1; 3; 5], [TStart; TError]); (6, [1; 6], [])] /\
+     (4, [1; 3; 5], [TStart; TError]); (6, [1; 6], []);
+     (8, [1; 7], [TStart; TError]); (9, [1; 7], [TStart; TEnd]); (10, [1; 7], [TStart; TError])] /\
+  map (fun ep => (ue_unit (fst ep), snd ep)) (graph_table_p true 0 0 ex_opts ex_stages) =
+    [(0, []); (1, [1]); (2, [2]); (3, [2; 1]); (4, [2; 2]); (6, [3]); (8, [5]); (9, [5]); (10, [5])] /\
   filter (of_unit 4) (st_log (run_script true (w_plain [9]) ex_sched)) =
     [Ev 4 9 TStart 4; Ev 4 5 TStart 4; Ev 4 3 TStart 4; Ev 4 1 TStart 4;
      Ev 4 1 TError 4; Ev 4 3 TError 4; Ev 4 5 TError 4; Ev 4 9 TError 4] /\
+  filter (of_unit 10) (st_log (run_script true (w_plain [9]) ex_sched)) =
+    [Ev 10 9 TStart 10; Ev 10 7 TStart 10; Ev 10 1 TStart 10;
+     Ev 10 1 TError 10; Ev 10 7 TError 10; Ev 10 9 TError 10] /\
   st_bad (run_script true (w_plain [9]) ex_sched) = false.
 Proof.
   split.
   - vm_compute. repeat (constructor; [simpl; intuition discriminate|]). constructor.
   - split; [apply traces_flatten_alt|].
     split; [vm_compute; discriminate|].
+    split; [vm_compute; reflexivity|]. split; [vm_compute; reflexivity|].
     split; [vm_compute; reflexivity|]. split; vm_compute; reflexivity.
 Qed.
 
@@ -326,8 +374,6 @@ Qed.
    before either starts, node 1 is served handler 5 and never handler 4.  (In the canonical
    order node 1 has finished before node 2 is created and nothing shows: the quantification
    over schedules is what the theorem above is about.) *)
-Definition fc10_opts : list copt := [([1], []); ([2], []); ([3], []); ([4], [[1]]); ([5], [[2]])].
-Definition fc10_stages : list (list gnode) := [[GLambda 1 1 1 1 false; GLambda 2 2 2 1 false]].
 
 Theorem exactly_once_paired_v0_refuted :
   exists w is_stream g ginf opts stages t e,
@@ -342,17 +388,7 @@ Theorem exactly_once_paired_v0_refuted :
     (* while the canonical order hides it *)
     filter (of_unit (ue_unit e)) (st_log (run_script false w (graph_ops is_stream g ginf opts stages)))
       = uexp_events w e.
-Proof.
-  exists (w_plain []), false, 0, 0, fc10_opts, fc10_stages,
-         (flatten_alt (graph_prog false 0 0 fc10_opts fc10_stages)),
-         {| ue_unit := 1; ue_info := 1; ue_list := [1; 2; 3; 4]; ue_timings := [TStart; TEnd] |}.
-  split; [vm_compute; repeat (constructor; [simpl; intuition discriminate|]); constructor|].
-  split; [apply traces_flatten_alt|].
-  split; [vm_compute; tauto|].
-  split; [reflexivity|].
-  split; [vm_compute; reflexivity|].
-  split; [vm_compute; discriminate | vm_compute; reflexivity].
-Qed.
+Proof. exact exactly_once_paired_v0_refuted_witness. Qed.
 Print Assumptions exactly_once_paired_v0_refuted.
 
 (* ------------------------------------------------------------------ stream_payload_independent *)
